@@ -478,6 +478,12 @@ func (c *Client) handleSessionMessage(addr *net.UDPAddr, msg []byte) error {
 		return nil
 	}
 
+	// Too short to hold a header, counter and tag: drop it before sizing the
+	// plaintext buffer from a negative length.
+	if PlaintextLen(len(msg)) < 0 {
+		return ErrInvalidMessage
+	}
+
 	// TODO(dadrian): Can we avoid this allocation?
 	plaintext := make([]byte, PlaintextLen(len(msg)))
 	_, mt, err := c.ss.readPacketLocked(plaintext, msg, c.ss.readKey)
